@@ -1,7 +1,18 @@
+// `sierradb_verif` is a verification-only cfg (never set in normal builds).
+#![allow(unexpected_cfgs)]
+
 use std::{
     sync::atomic::{AtomicU8, AtomicU32, AtomicU64, Ordering},
     time::{Duration, SystemTime, UNIX_EPOCH},
 };
+
+/// Verification yield point: expands to nothing unless built with `--cfg sierradb_verif`.
+macro_rules! verif_point {
+    ($name:expr) => {
+        #[cfg(sierradb_verif)]
+        verif_hooks::point($name);
+    };
+}
 
 #[derive(Debug, Clone, Copy, PartialEq)]
 #[repr(u8)]
@@ -75,6 +86,7 @@ impl WriteCircuitBreaker {
             CircuitState::Open => {
                 // Check if enough time has passed to try recovery
                 let now = current_timestamp();
+                verif_point!("allow:last_failure_time.load");
                 let last_failure = self.last_failure_time.load(Ordering::Acquire);
 
                 if now - last_failure >= self.recovery_timeout.as_millis() as u64 {
@@ -87,6 +99,7 @@ impl WriteCircuitBreaker {
             }
             CircuitState::HalfOpen => {
                 // Allow limited requests to test system recovery
+                verif_point!("allow:half_open_call_count.fetch_add");
                 let current_calls = self.half_open_call_count.fetch_add(1, Ordering::AcqRel);
                 current_calls < self.half_open_max_calls
             }
@@ -94,15 +107,18 @@ impl WriteCircuitBreaker {
     }
 
     pub fn record_success(&self) {
-        self.last_success_time
-            .store(current_timestamp(), Ordering::Release);
+        let now = current_timestamp();
+        verif_point!("success:last_success_time.store");
+        self.last_success_time.store(now, Ordering::Release);
 
         match self.current_state() {
             CircuitState::Closed => {
                 // Reset failure count on success
+                verif_point!("success:failure_count.store");
                 self.failure_count.store(0, Ordering::Release);
             }
             CircuitState::HalfOpen => {
+                verif_point!("success:half_open_success_count.fetch_add");
                 let successes = self.half_open_success_count.fetch_add(1, Ordering::AcqRel) + 1;
 
                 if successes >= self.half_open_success_threshold {
@@ -118,11 +134,13 @@ impl WriteCircuitBreaker {
     }
 
     pub fn record_failure(&self) {
-        self.last_failure_time
-            .store(current_timestamp(), Ordering::Release);
+        let now = current_timestamp();
+        verif_point!("failure:last_failure_time.store");
+        self.last_failure_time.store(now, Ordering::Release);
 
         match self.current_state() {
             CircuitState::Closed => {
+                verif_point!("failure:failure_count.fetch_add");
                 let failures = self.failure_count.fetch_add(1, Ordering::AcqRel) + 1;
                 if failures >= self.failure_threshold {
                     self.transition_to_open();
@@ -139,6 +157,7 @@ impl WriteCircuitBreaker {
     }
 
     pub fn current_state(&self) -> CircuitState {
+        verif_point!("state.load");
         let state_value = self.state.load(Ordering::Acquire);
         CircuitState::from(state_value)
     }
@@ -147,6 +166,7 @@ impl WriteCircuitBreaker {
         match self.current_state() {
             CircuitState::Open => {
                 let now = current_timestamp();
+                verif_point!("estimate:last_failure_time.load");
                 let last_failure = self.last_failure_time.load(Ordering::Acquire);
                 let elapsed = Duration::from_millis(now - last_failure);
 
@@ -175,15 +195,19 @@ impl WriteCircuitBreaker {
     }
 
     fn transition_to_open(&self) {
+        verif_point!("to_open:state.store");
         self.state
             .store(CircuitState::Open as u8, Ordering::Release);
         // Reset half-open counters
+        verif_point!("to_open:half_open_call_count.store");
         self.half_open_call_count.store(0, Ordering::Release);
+        verif_point!("to_open:half_open_success_count.store");
         self.half_open_success_count.store(0, Ordering::Release);
     }
 
     fn transition_to_half_open(&self) {
         // Only transition if we're currently Open
+        verif_point!("to_half_open:state.compare_exchange");
         let _ = self.state.compare_exchange(
             CircuitState::Open as u8,
             CircuitState::HalfOpen as u8,
@@ -191,25 +215,78 @@ impl WriteCircuitBreaker {
             Ordering::Acquire,
         );
         // Reset half-open counters
+        verif_point!("to_half_open:half_open_call_count.store");
         self.half_open_call_count.store(0, Ordering::Release);
+        verif_point!("to_half_open:half_open_success_count.store");
         self.half_open_success_count.store(0, Ordering::Release);
     }
 
     fn transition_to_closed(&self) {
+        verif_point!("to_closed:state.store");
         self.state
             .store(CircuitState::Closed as u8, Ordering::Release);
         // Reset all counters
+        verif_point!("to_closed:failure_count.store");
         self.failure_count.store(0, Ordering::Release);
+        verif_point!("to_closed:half_open_call_count.store");
         self.half_open_call_count.store(0, Ordering::Release);
+        verif_point!("to_closed:half_open_success_count.store");
         self.half_open_success_count.store(0, Ordering::Release);
     }
 }
 
 fn current_timestamp() -> u64 {
+    verif_point!("clock");
+    #[cfg(sierradb_verif)]
+    if let Some(now) = verif_hooks::mock_now() {
+        return now;
+    }
     SystemTime::now()
         .duration_since(UNIX_EPOCH)
         .unwrap_or_default()
         .as_millis() as u64
+}
+
+/// Verification hooks (only with `--cfg sierradb_verif`): a process-global callback invoked
+/// before every atomic operation / clock read of the breaker, and a mock clock.
+#[cfg(sierradb_verif)]
+pub mod verif_hooks {
+    use std::sync::{
+        Arc, RwLock,
+        atomic::{AtomicBool, AtomicU64, Ordering},
+    };
+
+    pub type PointFn = Arc<dyn Fn(&'static str) + Send + Sync>;
+
+    static POINT: RwLock<Option<PointFn>> = RwLock::new(None);
+    static MOCK_ON: AtomicBool = AtomicBool::new(false);
+    static MOCK_NOW: AtomicU64 = AtomicU64::new(0);
+
+    /// Install (or remove) the callback invoked at every yield point.
+    pub fn set_point(f: Option<PointFn>) {
+        *POINT.write().unwrap_or_else(|e| e.into_inner()) = f;
+    }
+
+    /// Set (or clear) the value returned by the breaker's clock, in milliseconds.
+    pub fn set_mock_now(now: Option<u64>) {
+        if let Some(now) = now {
+            MOCK_NOW.store(now, Ordering::SeqCst);
+        }
+        MOCK_ON.store(now.is_some(), Ordering::SeqCst);
+    }
+
+    pub(super) fn mock_now() -> Option<u64> {
+        MOCK_ON
+            .load(Ordering::SeqCst)
+            .then(|| MOCK_NOW.load(Ordering::SeqCst))
+    }
+
+    pub(super) fn point(name: &'static str) {
+        let f = POINT.read().unwrap_or_else(|e| e.into_inner()).clone();
+        if let Some(f) = f {
+            f(name);
+        }
+    }
 }
 
 #[cfg(test)]
